@@ -504,6 +504,16 @@ class StmtGen(Gen):
             body.append(Return(self.expr(ret, d)))
         self.scope, self.in_function, self.loop_depth = saved_scope, saved_fn, saved_loop
         f = FuncDecl(name, params, ret, body)
+        # the same function in another declaration form (forward declared / generic): other code paths of parser, analyses and code generator
+        x = r.random()
+        if x < 0.15 and params:
+            f.form = "forward"
+        elif x < 0.27:
+            gtys = [p.ty for p in params if p.ty not in (Z, K, B)]      # numeric arguments convert implicitly: T would bind to the argument's type
+            if gtys:
+                f.form = ("generic", r.choice(gtys))
+        if f.form is not None:
+            self.cells.add(("function_form", f.form if isinstance(f.form, str) else "generic"))
         self.prog.items.append(f)
         return f
 
